@@ -312,11 +312,13 @@ package server
 //@   ghost after call GetLeader: ghost.curLeader := ret0
 //@   ghost after call GetLeader: ghost.curEpoch := ret1
 //@   call applyOperation requires [fenced] req.Leader == ghost.curLeader && req.LeaderEpoch == ghost.curEpoch
+//@   call applyOperation requires [proposed-with-its-precondition-check] !isnil(arg3)
 //@ func (*metadataAPI).ExpandISR serves C07
 //@   requires m != nil && req != nil
 //@   ghost after call GetLeader: ghost.curLeader := ret0
 //@   ghost after call GetLeader: ghost.curEpoch := ret1
 //@   call applyOperation requires [fenced] req.Leader == ghost.curLeader && req.LeaderEpoch == ghost.curEpoch
+//@   call applyOperation requires [proposed-with-its-precondition-check] !isnil(arg3)
 //@ func (*metadataAPI).ReportLeader serves C07
 //@   requires m != nil && req != nil
 //@   ghost after call GetLeader: ghost.curLeader := ret0
@@ -326,6 +328,43 @@ package server
 //@   call newPartitionFailoverStatus requires [expiry-wired-for-this-partition] ghost.expiryFor == arg0 && arg0 == partition
 //@   call report requires [fenced] req.Leader == ghost.curLeader && req.LeaderEpoch == ghost.curEpoch
 //@   call report requires [witness-is-in-sync-follower] arg2 == req.Replica && ghost.witnessOK && req.Replica != ghost.curLeader
+
+// The checks above run BEFORE the proposal lock: another metadata operation can be committed between them and the
+// proposal. What makes them hold when the proposal is made is the precondition function, which applyOperation runs
+// under the proposal lock with the state machine caught up. It must refuse (a) an ISR change whose (leader, epoch)
+// is not the partition's current one, (b) a leader change to a replica that is not an in-sync follower.
+//@ ghost var lockedPartition *partition
+//@ ghost var fencedUnderLock bool
+//@ ghost var candidateInSync bool
+//@ ghost var candidateIsLeader bool
+//@ globalinv ErrPartitionNotFound serves C07: ErrPartitionNotFound != nil
+//@ ghost var generationCurrent bool
+//@ func (*metadataAPI).checkLeaderGeneration serves C07
+//@   requires m != nil
+//@   ghost at entry: ghost.lockedPartition := nil
+//@   ghost at entry: ghost.generationCurrent := false
+//@   ghost after call GetPartition: ghost.lockedPartition := (arg1 == streamName && arg2 == partitionID ? ret0 : nil)
+//@   ghost after call GetLeader: ghost.generationCurrent := arg0 == ghost.lockedPartition && arg0 != nil && ret0 == leader && ret1 == leaderEpoch
+//@   ensures [current-generation-or-refused] result == nil ==> ghost.generationCurrent
+//@ func (*metadataAPI).checkShrinkISRPreconditions serves C07
+//@   requires m != nil && op != nil && op.ShrinkISROp != nil
+//@   ghost at entry: ghost.fencedUnderLock := false
+//@   ghost after call checkLeaderGeneration: ghost.fencedUnderLock := ret0 == nil && arg1 == op.ShrinkISROp.Stream && arg2 == op.ShrinkISROp.Partition && arg3 == op.ShrinkISROp.Leader && arg4 == op.ShrinkISROp.LeaderEpoch
+//@   ensures [stale-request-refused-under-the-proposal-lock] result == nil ==> ghost.fencedUnderLock
+//@ func (*metadataAPI).checkExpandISRPreconditions serves C07
+//@   requires m != nil && op != nil && op.ExpandISROp != nil
+//@   ghost at entry: ghost.fencedUnderLock := false
+//@   ghost after call checkLeaderGeneration: ghost.fencedUnderLock := ret0 == nil && arg1 == op.ExpandISROp.Stream && arg2 == op.ExpandISROp.Partition && arg3 == op.ExpandISROp.Leader && arg4 == op.ExpandISROp.LeaderEpoch
+//@   ensures [stale-request-refused-under-the-proposal-lock] result == nil ==> ghost.fencedUnderLock
+//@ func (*metadataAPI).checkChangeLeaderPreconditions serves C07
+//@   requires m != nil && op != nil && op.ChangeLeaderOp != nil
+//@   ghost at entry: ghost.lockedPartition := nil
+//@   ghost at entry: ghost.candidateInSync := false
+//@   ghost at entry: ghost.candidateIsLeader := true
+//@   ghost after call GetPartition: ghost.lockedPartition := (arg1 == op.ChangeLeaderOp.Stream && arg2 == op.ChangeLeaderOp.Partition ? ret0 : nil)
+//@   ghost after call GetLeader: ghost.candidateIsLeader := !(arg0 == ghost.lockedPartition && arg0 != nil && ret0 != op.ChangeLeaderOp.Leader)
+//@   ghost after call inISR: ghost.candidateInSync := arg0 == ghost.lockedPartition && arg0 != nil && arg1 == op.ChangeLeaderOp.Leader && ret0
+//@   ensures [candidate-is-an-in-sync-follower-under-the-proposal-lock] result == nil ==> ghost.candidateInSync && !ghost.candidateIsLeader
 
 // report: a failover is started only with more witnesses than the quorum, and a started failover
 // forgets the witnesses (they referred to the leader that is being replaced)
@@ -353,6 +392,7 @@ package server
 //@   requires m != nil && partition != nil
 //@   call selectPartitionLeader requires [candidates-exclude-leader] len(arg1) >= 1 && (forall j int :: 0 <= j && j < len(arg1) ==> arg1[j] != leader)
 //@   loop 1 invariant forall j int :: 0 <= j && j < len(candidates) ==> candidates[j] != leader
+//@   call applyOperation requires [proposed-with-its-precondition-check] !isnil(arg3)
 
 // ---------------------------------------------------------------------------------------------
 // Metadata state machine (property C06): operations are applied under their Raft index as epoch,
